@@ -37,7 +37,7 @@ func init() {
 		Assumptions: []string{"the reported input total of a withdrawal is observed as payment + change output value of the built transaction (makeBtcTx sets change = total - payment and omits a non-positive change)", "vault keys sign whatever setBtcTxParam the plan asks for, including absurd minimum-change values"},
 		QuickRuns:   200, ThoroughRuns: 12000, QuickCap: 45, ThoroughCap: 780,
 		RequiredProbes: []string{"deposit_accepted", "withdrawal_built", "exact_match_selection", "change_at_least_min_change", "insufficient_funds_rejected",
-			"rolled_back_withdrawal", "multi_input_selection", "selected_p2sh", "selected_p2wsh", "clean_restart", "signing_completed"},
+			"rolled_back_withdrawal", "multi_input_selection", "replacement_pass_with_spare_capacity", "selected_p2sh", "selected_p2wsh", "clean_restart", "signing_completed"},
 		Generate: generate,
 		Execute:  execute,
 	})
@@ -512,6 +512,20 @@ func (w *world) onBuilt(t *e1.TxTrace, c *wdCtx, ev []interface{}) {
 			}
 		}
 	}
+	// Evidence: which search decided. The first search accepts only a total equal to the payment or
+	// within [payment+minchange, 4*payment]; when 3*payment < minchange that window is empty, so a
+	// selection with change was necessarily made by the largest-first search. If it picked 3, 5, 6
+	// or 7 inputs (Go slice growth leaves spare capacity at these lengths) and further outputs
+	// remained, its replacement pass ran over a selection slice with spare capacity.
+	if mcv := k.param.minChange; mcv < 1<<55 && c.amount > 0 && c.amount < 1<<55 && 3*uint64(c.amount) < mcv {
+		run.Probe("largest_first_search_decided")
+		if n := len(sel); len(k.unspent) > n {
+			run.Probe("replacement_pass_ran")
+			if n == 3 || (n >= 5 && n <= 7) {
+				run.Probe("replacement_pass_with_spare_capacity")
+			}
+		}
+	}
 	sum := new(big.Int)
 	for _, u := range sel {
 		sum.Add(sum, new(big.Int).SetUint64(u.value))
@@ -718,6 +732,9 @@ func generate(rng *kernel.RNG, idx int, tier string) *kernel.Plan {
 		"reexec": int64(rng.Range(1, 2)),
 	}
 	nkeys := int(cfg["nkeys"]) + 1
+	if rng.Chance(0.15) {
+		return generateWindowless(rng, cfg, nkeys, tier)
+	}
 	// swarm: size class, fault kinds switched off per run
 	size := pickW(rng, 45, 35, 20) // small, medium, large UTXO sets
 	useForce := rng.Chance(0.7)
@@ -837,6 +854,74 @@ func generate(rng *kernel.RNG, idx int, tier string) *kernel.Plan {
 		case 6:
 			// withdraw, sign completely, withdraw again: the returned change is selectable
 			steps = append(steps, withdraw(key), kernel.Step{Op: "sign", A: []int64{int64(rng.Intn(8)), 7}}, withdraw(key))
+		}
+	}
+	return &kernel.Plan{Cfg: cfg, Steps: steps}
+}
+
+// generateWindowless is the workload family "payment below a third of the minimum change": the
+// first search's acceptance window [payment+minchange, 4*payment] is then empty, so every
+// withdrawal that is not an exact match is decided by the largest-first search, which (with outputs
+// of minchange/(d+1)..minchange/d) accumulates d+1..d+3 inputs and then runs its replacement pass
+// over the remaining smaller outputs.
+func generateWindowless(rng *kernel.RNG, cfg map[string]int64, nkeys int, tier string) *kernel.Plan {
+	cfg["family"] = 1
+	var steps []kernel.Step
+	M := int64(pickFrom(rng, []int{20000, 50000, 200000, 1000000, 30000000}))
+	rate := int64(rng.Range(1, 3))
+	d := int64(rng.Range(2, 6))
+	val := func() int64 {
+		switch pickW(rng, 80, 8, 6, 6) {
+		case 0:
+			return M/(d+1) + rng.Int63()%(M/d-M/(d+1)+1)
+		case 1:
+			return M/(d+1) + 1 // repeated value
+		case 2:
+			return 1 + rng.Int63()%(M/(d+1)) // smaller
+		}
+		return genValue(rng)
+	}
+	kindBias := pickW(rng, 20, 50, 10, 20)
+	fund := func(key, n int) kernel.Step {
+		a := []int64{int64(key), int64(rng.Intn(6)), int64(rng.Intn(35))}
+		for i := 0; i < n; i++ {
+			kd := int64(rng.Intn(nKinds))
+			if kindBias < 3 && rng.Chance(0.75) {
+				kd = int64(kindBias)
+			}
+			a = append(a, val(), kd)
+		}
+		return kernel.Step{Op: "fund", A: a}
+	}
+	withdraw := func(key int) kernel.Step {
+		lo := 700 * rate
+		x := lo + rng.Int63()%(M/3-lo)
+		if rng.Chance(0.1) {
+			x = genAmount(rng)
+		}
+		ff := int64(0)
+		if rng.Chance(0.15) {
+			ff = int64(rng.Range(1, 3))
+		}
+		return kernel.Step{Op: "withdraw", A: []int64{int64(key), 0, x, rng.Int63() % 1000003, int64(rng.Intn(4)), int64(rng.Intn(4)), ff, int64(rng.Intn(14)), int64(rng.Intn(15))}}
+	}
+	for k := 0; k < nkeys; k++ {
+		steps = append(steps, kernel.Step{Op: "param", A: []int64{int64(k), rate, M, 0}}, fund(k, rng.Range(int(d)+2, int(d)+8)))
+	}
+	nops := rng.Range(4, 14)
+	for i := 0; i < nops; i++ {
+		key := rng.Intn(nkeys)
+		switch pickW(rng, 60, 15, 12, 8, 5) {
+		case 0:
+			steps = append(steps, withdraw(key))
+		case 1:
+			steps = append(steps, fund(key, rng.Range(1, 5)))
+		case 2:
+			steps = append(steps, kernel.Step{Op: "sign", A: []int64{int64(rng.Intn(8)), 7}})
+		case 3:
+			steps = append(steps, kernel.Step{Op: "restart", A: []int64{int64(rng.Intn(3))}})
+		case 4:
+			steps = append(steps, kernel.Step{Op: "param", A: []int64{int64(key), rate, M + int64(rng.Intn(3)), 0}})
 		}
 	}
 	return &kernel.Plan{Cfg: cfg, Steps: steps}
